@@ -75,6 +75,36 @@ def run_one(job):
         ws.rmws(w)
 
 
+def fuzz_backup_job(job):
+    """C08 when hunks apply with fuzz: the outer context lines of every file are changed, the series is pushed with
+    --fuzz 2 --backup always, and restoring the backups newest-first must give the (changed) starting tree back."""
+    sc, out, threads = job
+    w = ws.mkws('fzb')
+    try:
+        scen.materialise(w, sc['tree0'], sc['series'], [('-R' if pt.get('rev') else '') for pt in sc['series']])
+        start = {}
+        for p, f in sc['tree0'].items():
+            if f['ex']:
+                data = open(os.path.join(w, p), 'rb').read()
+                for k in range(1, len(f['cells']) + 1):
+                    data = data.replace(b'ctx %d.1\n' % k, b'ctx %d.1 moved\n' % k).replace(b'ctx %d.6\n' % k, b'ctx %d.6 moved\n' % k)
+                open(os.path.join(w, p), 'wb').write(data)
+                start[p] = data
+        rc, so, se = ws.push(w, ['-a', '-q', '--threads', threads, '--backup', 'always', '--backup-count', 'all', '--fuzz', 2])
+        if ws.crashed(rc):
+            return [('crash', 'exit status %s with --fuzz 2 --backup always: %s' % (rc, se.strip()[-200:]))]
+        if rc != 0:
+            return []
+        got = scen.popsim(ws.snapshot(w), out)
+        got = {p: v for p, v in got.items() if v}
+        want = {p: v for p, v in start.items() if v}
+        if got != want:
+            return [('popsim', 'after a push with --fuzz 2, restoring the backups does not give the starting tree back: differs in %s' % sorted(p for p in set(got) | set(want) if got.get(p) != want.get(p)))]
+        return []
+    finally:
+        ws.rmws(w)
+
+
 def normhex(h):
     """a name printed by rt (hex of its bytes) as the path it denotes: `d/./s/e` is `d/s/e`"""
     import posixpath
@@ -134,6 +164,20 @@ def check_scenarios(prop, tier):
             stat = {'scenarios_enumerated': len(lines), 'scenarios_replayed': len(pick) - nadv, 'adversarial_skipped': nadv, 'runs': len(jobs),
                     'runs_with_failing_patch': sum(1 for j in jobs if j[2]['exit'] == 1), 'runs_with_backups': sum(1 for j in jobs if j[2]['backups'])}
             res.cov['parts'][tag].update(stat)
+            if prop == 'C08' and npatches == 2:
+                fj = []
+                for li, line in enumerate(pick[:(300 if tier == 'quick' else 4000)]):
+                    sc = json.loads(json.loads(line))
+                    oo = [o for o in sc['outs'] if o['cfg']['backup'] == 'always' and o['cfg']['win'] < 0]
+                    if sc['outs'][0]['out']['adversarial'] or not oo or oo[0]['out']['exit'] != 0:
+                        continue
+                    fj.append((sc, oo[0]['out'], 1 + li % 2))
+                with Pool(12) as pool:
+                    fo = pool.map(fuzz_backup_job, fj, chunksize=8)
+                for (sc, o, threads), probs in zip(fj, fo):
+                    for cat, msg in probs:
+                        res.violation(cat, '%s: %s (threads %d)' % (WHAT.get(cat, cat), msg, threads), {'tree0': sc['tree0'], 'series': sc['series'], 'threads': threads, 'fuzz': 2})
+                res.cov['parts'][tag].update({'pushes_with_fuzz_and_backups': len(fj)})
             if prop == 'C13':
                 # every reject file must itself be a patch the real parser accepts, for that file, and a fixed point of write/parse
                 import p_text
@@ -200,6 +244,8 @@ def dry_one(job):
     try:
         scen.materialise(w, sc['tree0'], sc['series'])
         os.makedirs(os.path.join(w, 'emptydir'))
+        # the directory of d/c and d/e is there already, empty, when no file of the tree lives in it
+        os.makedirs(os.path.join(w, os.path.dirname(scen.conc('d/e'))), exist_ok=True)
         before = ws.snapshot(w, skip=(), meta=True)
         probs = []
         if traced:
